@@ -111,7 +111,7 @@ func init() {
 		Rule: "From each of 7 well-formed base requests x 5 target configurations, up to D components deviate to hostile values: HTTP method (9), request path (35), query string (32, incl. malformed field paths), " +
 			"Content-Type (21), 2 extra headers (29 each), dropped protocol headers, HTTP version, body (48: every <=2-byte string over {00,01,02,80,ff} and envelope-shaped garbage), Content-Length/read-error variants, " +
 			"backend behaviour (~100 scripts: status codes incl. illegal ones, numeric grpc-status values, Content-Length values, body scripts, wrong content-types/encodings, double WriteHeader, flush-first, panics, early return), " +
-			"read policy, ResponseWriter kind (Flusher / FlushError-only / Unwrap-only), context cancellation. Non-trivial = distinct scenario with at least one hostile component.",
+			"read policy, ResponseWriter kind (Flusher / FlushError-only / Unwrap-only / none of them), context cancellation; framing headers set after the head, foreign Transfer-Encoding. Non-trivial = distinct scenario with at least one hostile component.",
 		Assume:       []string{"strict ResponseWriter model mirrors net/http (status range check, Content-Length enforcement, no body on 1xx/204/304)", "60 s watchdog per execution detects a wedged ServeHTTP"},
 		Scenarios:    []Scenario{{Name: "hostile", Fn: scn, QuickBound: 2, ThoroughBound: 3}},
 		RequireNotes: []string{"transcoded-or-rejected", "backend-panic-propagated", "pass-through"},
